@@ -135,3 +135,17 @@ Proof.
     rewrite nth_error_skipn_add. replace (S rid + k) with rid' by lia. exact E'.
 Qed.
 End R.
+
+(* the reserved parameter *)
+Lemma deliver_route r ps : plookup (deliver r ps) s_route = Some (render_route r).
+Proof. unfold plookup, deliver. cbn [find fst]. rewrite str_eqb_refl. reflexivity. Qed.
+
+Lemma deliver_other r ps k : k <> s_route -> plookup (deliver r ps) k = plookup ps k.
+Proof.
+  intros Ne. unfold plookup, deliver. cbn [find fst].
+  assert (E : str_eqb s_route k = false) by (apply str_eqb_neq; congruence). rewrite E.
+  induction ps as [|[a b] ps IH]; [reflexivity|]. cbn [filter fst find].
+  destruct (str_eqb a s_route) eqn:Ea; cbn [negb].
+  - apply str_eqb_eq in Ea. subst a. rewrite E. exact IH.
+  - cbn [find fst]. destruct (str_eqb a k); [reflexivity | exact IH].
+Qed.
